@@ -125,6 +125,8 @@ def run(chk):
         {'programs': {'u1': ['connect'], 'u2': ['disc', 'connect']}, 'servers': ['disc', 'idle', 'idle']},
         {'programs': {'u1': ['connect', 'disc_now', 'connect'], 'u2': ['disc']}, 'servers': ['close', 'idle', 'idle']},
         {'programs': {'u1': ['connect', 'connect'], 'u2': ['status']}, 'servers': ['refuse', 'idle', 'idle']},
+        {'programs': {'u1': ['connect', 'disc_now', 'connect'], 'u2': ['disc_now']}, 'servers': ['stall', 'idle', 'idle']},
+        {'programs': {'u1': ['connect', 'disc', 'connect', 'disc_now'], 'u2': ['connect']}, 'servers': ['stall', 'stall', 'idle']},
         {'programs': {'u1': ['disc', 'connect'], 'u2': ['disc_now']}, 'servers': ['trigger', 'idle', 'idle'],
          'listener_reconnect': True},
         {'programs': {'u1': ['connect'], 'u2': ['connect', 'disc']}, 'servers': ['close', 'idle', 'idle'],
